@@ -57,6 +57,9 @@ def _plant_nested(ctx, rng, spec, depth):
     nspec, _ = gen.gen_spec(inner_ctx, ntgt if ntgt != 'arg' else None, 1)
     if depth < 3 and rng.random() < 0.4:
         nspec = _plant_nested(ctx, rng, nspec, depth + 1)
+    if rng.random() < 0.3:
+        # the inner call returns a scalar (the name of its result's type): usable by the transparency oracle
+        nspec = ['tuple', [nspec, ['fn', 'type'], ['T', 'T', [['.', '__name__']]]]]
     d = {'target': ntgt, 'spec': nspec, 'handle': rng.choice(['return', 'raise', 'raise', 'rewrap', 'swallow']),
          'depth': depth}
     p = ['probe', ctx.new_pid(), 'nested', d]
@@ -163,6 +166,9 @@ def gen_case(seed, tier):
                                     'ZeroDivisionError'], 3)}
 
 
+_NO_STUB = object()
+
+
 def _resolve_target(case, t):
     if isinstance(t, dict) and t.get('t') == 'sharedtarget':
         return ('shared', t['i'])
@@ -172,7 +178,7 @@ def _resolve_target(case, t):
 class _World:
     """one private instance + kernel + builder with the case's objects"""
 
-    def __init__(self, case, gen_rng=None, only_task=None, counts_init=None, eager_render=True):
+    def __init__(self, case, gen_rng=None, only_task=None, counts_init=None, eager_render=True, nested_stub=None):
         kn = case['knobs']
         self.G = simrun.make_instance(kn)
         for reg in case.get('default_regs') or []:
@@ -201,13 +207,16 @@ class _World:
             self.k.enable_line_mode()
         self.nested_log = []
         self.B = build.Builder(self.G, self.k, shared=case.get('shared'), on_nested=self._on_nested,
-                               eager_render=eager_render)
+                               eager_render=eager_render, nested_stub=nested_stub)
+        self.nested_results = {}
         self.shared_targets = {}
         self.case = case
 
-    def _on_nested(self, d, res):
-        # counts at *entry* are needed; they were captured by the wrapper below
-        pass
+    def _on_nested(self, d, res, pid=None, nth=None):
+        if res[0] == 'ok':
+            self.nested_results[(pid, nth)] = res[1]
+        else:
+            self.nested_results[(pid, nth)] = _NO_STUB
 
     def thunk_for(self, i):
         case = self.case
@@ -274,6 +283,28 @@ def run_case(case, gen_rng=None):
             viols.append({'clause': 'isolated-equivalence', 'sig': 'isolated-equivalence/events',
                           'expected': a[j:j + 3], 'observed': b[j:j + 3], 'task': i,
                           'digest': digest})
+    # ---- re-entrancy transparency: replace every successful nested call by its recorded result (the probe
+    # returns it without re-entering glom); the outer call must not notice
+    if not case.get('faults') and not case['knobs'].get('fault_rate'):
+        for i in range(n):
+            descs = {}
+            _walk_nested([case['tasks'][i], case['shared']], descs)
+            if not descs or any(('Assign' in str(d['spec']) or 'Delete' in str(d['spec'])) for d in descs.values()):
+                continue
+            Wr = _World(case, only_task=i)
+            res_r = Wr.k.run_single(Wr.thunk_for(i), task_id=i)
+            stub = {key: v for key, v in Wr.nested_results.items() if v is not _NO_STUB}
+            if not stub or len(stub) != len(Wr.nested_results):
+                continue        # only when every nested call returned a value
+            if not all(type(v) in (int, str, float, bool, type(None)) for v in stub.values()):
+                continue        # (objects recorded in one world have no identity in another: scalars only)
+            Ws = _World(case, only_task=i, nested_stub=stub)
+            res_s = Ws.k.run_single(Ws.thunk_for(i), task_id=i)
+            a, b = canon.outcome(res_r, None), canon.outcome(res_s, None)
+            stats['transparency_runs'] = stats.get('transparency_runs', 0) + 1
+            if a != b and not canon.mentions_recursion([a, b]):
+                viols.append({'clause': 'reentrancy-transparency', 'sig': 'reentrancy-transparency/outer-call-differs-when-the-nested-call-is-replaced-by-its-result',
+                              'expected': b, 'observed': a, 'task': i, 'digest': digest})
     # ---- rendering order: an inner error may be rendered (str()) right when it is caught, or only later
     # while the OUTER error is being rendered; the outer call's outcome must not depend on that
     for i in range(n):
